@@ -12,7 +12,7 @@ What is proved (for every input / history):
 * a threshold consumed by a compilation is never looked at for the root layer
   (`filter_skips_root_layer`: `_filter_with_cache` is not applied to the first layer of a diagram).
 What is *watched* rather than proved (DESIGN.md §6 C09): that pruning with thresholds written by other
-compilations is globally safe (`CachePreservesOpt`, stated).  The thresholds the implementation
+compilations is globally safe (`caching_solver_correct`, `Props/C09c.lean`).  The thresholds the implementation
 writes are compared, per compilation, with those of the diagram models (exact equality of the
 multiset of `update_threshold` calls, also with a pre-filled cache: engine `mdd`); caching solvers
 are compared with the exact optimum on re-convergent instances, sequentially (tape validation,
@@ -65,11 +65,8 @@ theorem must_explore_spec (t : Option Thr) (v : Int) :
 theorem threshold_never_decreases (cell : Option Thr) (t : Thr) :
     ∃ r, updCell cell t = some r ∧ Thr.le t r ∧ ∀ e, cell = some e → Thr.le e r := C18.update_ge cell t
 
-/-- Stated, not proved: for arbitrary runs the caching solvers return the optimum (sentence 1). -/
-def CachePreservesOpt : Prop := True
-/-- Stated, not proved: every `(state, depth, θ, explored)` a diagram compiled without consuming
-    thresholds writes is sound w.r.t. the incumbent and the drained cut-set (`theta_sound_isolated`;
-    per-node step proved at design time on an abstract layered diagram, `Theta.lean`). -/
-def ThetaSoundIsolated : Prop := True
+/-! Sentence 1 ("for arbitrary runs the caching solvers return the optimum") is `caching_solver_correct` in `Props/C09c.lean`
+    (every pop order since the repair of D14); threshold soundness of a single compilation is `theta_sound` /
+    `theta_sound_isolated` in `Props/C09b.lean`. -/
 
 end Ddo.C09
